@@ -5,5 +5,5 @@ INVARIANT Once
 INVARIANT TopLaw
 CHECK_DEADLOCK FALSE
 CONSTANTS
-  Families = {"q_nest", "q_pairs", "q_leaves", "q_coal1", "q_coal2", "q_calls", "q_modes", "q_ref"}
+  Families = {"q_nest", "q_pairs", "q_leaves", "q_coal1", "q_calls", "q_modes", "q_ref", "q_chains", "q_inspect", "q_scope", "q_sets", "q_top", "q_refscope", "q_falsy", "q_falsyc", "q_hard", "q_hardc", "q_idx"}
   Mutant = "none"
